@@ -30,7 +30,7 @@ func c03Start(r *rand.Rand, ln int) packet.Packet {
 
 func (c03) Gen(tier string, seed int64, emit func([]Ev)) {
 	r := rand.New(rand.NewSource(seed))
-	reps := 2
+	reps := 4
 	steps := 8
 	if tier == "thorough" {
 		reps = 120
